@@ -104,6 +104,10 @@ func TestC08(t *testing.T) {
 	blocks := int(envInt("VERIF_BLOCKS", 130))
 	for c := 0; c < r.N; c++ {
 		seed := r.Rng.Int63()
+		if c%2 == 1 {
+			c08ZooCase(t, r, seed)
+			continue
+		}
 		opts := FullAppOpts{NumValidators: 4 + int(seed%2), NumUsers: 3, Seed: seed % 1000}
 		c08SetEnv(false)
 		a := NewFullApp(t, opts)
@@ -174,4 +178,78 @@ func TestC08(t *testing.T) {
 		r.Case(fmt.Sprint("twin|", seed), txCount >= 10)
 		r.Stats["txs"] += txCount
 	}
+}
+
+// c08ZooCase: twin execution over the whole message zoo (all 41 message types, valid and hostile).
+func c08ZooCase(t *testing.T, r *Rec, seed int64) {
+	c08SetEnv(false)
+	wa := NewZooWorld(t, seed%1000)
+	c08SetEnv(true)
+	wb := NewZooWorld(t, seed%1000)
+	defer c08SetEnv(false)
+	zoo := ZooAll()
+	rngA := rand.New(rand.NewSource(seed))
+	rngB := rand.New(rand.NewSource(seed))
+	ctl := rand.New(rand.NewSource(seed + 7))
+	var history []string
+	if hex.EncodeToString(wa.FA.AppHash()) != hex.EncodeToString(wb.FA.AppHash()) {
+		r.Hit("twin_execution_equal", "twins differ right after world construction", map[string]interface{}{"seed": seed, "stores": FADiffDigests(wa.FA.StoreDigest(), wb.FA.StoreDigest())})
+		return
+	}
+	txs := 0
+	for op := 0; op < 70; op++ {
+		idx := ctl.Intn(len(zoo))
+		hostile := ctl.Intn(10) < 4
+		gov := ctl.Intn(2) == 0
+		restart := ctl.Intn(30) == 0
+		var resS [2]string
+		for ti, w := range []*ZooWorld{wa, wb} {
+			rng := rngA
+			if ti == 1 {
+				rng = rngB
+			}
+			c08SetEnv(ti == 1)
+			if ti == 1 && restart && !w.FA.Broken {
+				w.FA.Restart()
+			}
+			w.Maintain()
+			m := zoo[idx]
+			func() {
+				defer func() {
+					if p := recover(); p != nil {
+						resS[ti] = fmt.Sprint("harness-panic ", p)
+					}
+				}()
+				actor := m.RightfulActor(w, rng)
+				msg := m.Build(w, actor, rng, hostile)
+				var res FATxResult
+				if m.NeedsAuthority && gov {
+					res = w.DeliverGov(msg)
+				} else {
+					res = w.Deliver(actor, actor, msg)
+				}
+				resS[ti] = zooResStr(res)
+			}()
+		}
+		txs++
+		line := fmt.Sprintf("block %d 1", wa.FA.Height())
+		history = append(history, fmt.Sprintf("%s hostile=%v -> %s | %s", zoo[idx].Name, hostile, resS[0], resS[1]))
+		same := resS[0] == resS[1] && wa.FA.Height() == wb.FA.Height() &&
+			hex.EncodeToString(wa.FA.AppHash()) == hex.EncodeToString(wb.FA.AppHash()) &&
+			hex.EncodeToString(wa.FA.LastResultsHash()) == hex.EncodeToString(wb.FA.LastResultsHash())
+		out := "equal"
+		if !same {
+			out = "diverged"
+			r.Hit("twin_execution_equal", fmt.Sprintf("after %s (hostile=%v): results %q vs %q, heights %d/%d, stores %v", zoo[idx].Name, hostile, resS[0], resS[1],
+				wa.FA.Height(), wb.FA.Height(), FADiffDigests(wa.FA.StoreDigest(), wb.FA.StoreDigest())),
+				map[string]interface{}{"seed": seed, "zoo": true, "env_on_twin_b": c08EnvVars, "history": history})
+		}
+		r.Op(line, out)
+		r.Stat("zoo." + zoo[idx].Name)
+		if !same {
+			break
+		}
+	}
+	r.Case(fmt.Sprint("twinzoo|", seed), txs >= 10)
+	r.Stats["txs"] += txs
 }
